@@ -69,7 +69,8 @@ impl<const N: usize> AEADCipherCodec<N> {
         let nonce_size = udp::nonce_length(self.kind);
         let tag_size = self.kind.tag_size();
         let require_eih = self.kind.support_eih() && !context.identity_keys.is_empty();
-        let eih_len = if require_eih { 16 } else { 0 };
+        // one 16-byte identity header per identity key (iPSK0:iPSK1:...:uPSK)
+        let eih_len = if require_eih { 16 * context.identity_keys.len() } else { 0 };
         dst.reserve(nonce_size + 8 + 8 + eih_len + 1 + 8 + 2 + padding_length as usize + address::length(address) + item.remaining() + tag_size);
         if nonce_size > 0 {
             unsafe { dst.advance_mut(nonce_size) };
